@@ -1,0 +1,20 @@
+//go:build verif
+
+package statsdaemon
+
+import "github.com/atlassian/gostatsd/pkg/backends/sender"
+
+// VerifSetConnFactory (verif hook H3) replaces the connection factory of the client's unexported sender
+// (used by Run for metrics and by SendEvent for events), so that a simulator can hand out in-memory
+// connections instead of dialling the statsd address over UDP/TCP/TLS.
+// It must be called before Run is started (the sender reads the field without synchronisation).
+// Only built with the "verif" tag; the shipped behaviour is unchanged.
+func (client *Client) VerifSetConnFactory(f sender.ConnFactory) {
+	client.sender.ConnFactory = f
+}
+
+// VerifPacketSize reports the maximum number of bytes the client puts into one buffer / Write call
+// (1472 for UDP, 1 MiB for TCP).
+func (client *Client) VerifPacketSize() int {
+	return client.packetSize
+}
